@@ -304,6 +304,10 @@ Array::Ptr ScriptUtils::Intersection(const std::vector<Value>& arguments)
 			std::sort(arr2->Begin(), arr2->End());
 		}
 
+		/* From the third argument on arr1 is the previous result: write into a fresh array, the left input must neither
+		 * be padded by the Resize() below nor be overwritten while std::set_intersection reads it. */
+		result = new Array();
+
 		result->Resize(std::max(arr1->GetLength(), arr2->GetLength()));
 		Array::SizeType len;
 		{
